@@ -201,7 +201,7 @@ pub fn case_history(va: &dyn VariantApi, h: &History, st: &CaseStats) -> Result<
 }
 
 fn run_history(ctx: &Ctx) -> CheckResult {
-    let cases = ctx.tier.pick(700u32, 15_000);
+    let cases = ctx.tier.pick(2000u32, 30_000);
     for va in ctx.api.variants() {
         let v = va.v();
         ctx.pt_run(
@@ -223,7 +223,7 @@ fn run_history(ctx: &Ctx) -> CheckResult {
 fn run_twocut(ctx: &Ctx) -> CheckResult {
     let live = Cell::new(true);
     let st = ctx.stats("twocut", &live);
-    let n_inputs = ctx.tier.pick(6usize, 60);
+    let n_inputs = ctx.tier.pick(12usize, 80);
     for va in ctx.api.variants() {
         let v = va.v();
         let inputs = ctx.sample_values(&format!("twocut/{}", v.name), n_inputs, &vec(any::<u8>(), 5..=24));
